@@ -46,11 +46,19 @@ TopAmong(objs, S, c) == LET K == Covering(objs, c) \cap S IN
 \* ---------- the assembly order (code shaped): stable sort by placement order ----------
 Perms(n) == { s \in [1..n -> 1..n] : \A i, j \in 1..n : i # j => s[i] # s[j] }
 \* variant "stable" = sorted(objects, key=placement_order) (Python's sort is stable)
-\* wrong variants: "reverse_ties" (ties in reverse list order), "list_order" (placement order ignored)
+\* wrong variants: "reverse_ties" (ties in reverse list order), "list_order" (placement order ignored),
+\* "arbitrary_ties" (any permutation sorted by placement order, see SortedAnyTies)
 Before(objs, i, j, variant) ==
     CASE variant = "reverse_ties" -> objs[i].ord < objs[j].ord \/ (objs[i].ord = objs[j].ord /\ i > j)
       [] variant = "list_order"   -> i < j
       [] OTHER                    -> objs[i].ord < objs[j].ord \/ (objs[i].ord = objs[j].ord /\ i < j)
+\* Before is a strict total order on the list indices, so the sorted sequence is given by ranks
+\* (no search over permutations: works for any number of objects)
+Rank(objs, i, variant) == 1 + Cardinality({ j \in DOMAIN objs : j # i /\ Before(objs, j, i, variant) })
 PaintOrder(objs, variant) ==
-    CHOOSE s \in Perms(Len(objs)) : \A a, b \in 1..Len(objs) : a < b => Before(objs, s[a], s[b], variant)
+    [ a \in 1..Len(objs) |-> CHOOSE i \in DOMAIN objs : Rank(objs, i, variant) = a ]
+\* every sequence that is sorted by placement order but resolves ties ARBITRARILY (what a non-stable sort
+\* such as numpy.argsort may return); the stable order is one of them
+SortedAnyTies(objs) ==
+    { s \in Perms(Len(objs)) : \A a, b \in 1..Len(objs) : a < b => objs[s[a]].ord <= objs[s[b]].ord }
 ========================================================================
